@@ -849,7 +849,13 @@ func (h *handler1) handleMqttSn(ctx context.Context, pkt snPkts.Packet) error {
 				cancelPinger := h.startSleepPinger(ctx)
 				time.AfterFunc(time.Duration(snPkt.Duration)*time.Second, cancelPinger)
 			}
-			h.pktBuffer = nil
+			if h.state.Get() == util.StateAsleep {
+				// A sleeping client renews its sleep: what is queued for
+				// it stays queued, and the reply must not be queued.
+				h.setState(util.StateAwake)
+			} else {
+				h.pktBuffer = nil
+			}
 			m2 := snPkts1.NewDisconnect(0)
 			if err := h.snSend(m2); err != nil {
 				return err
